@@ -83,7 +83,7 @@ def build_concrete(spec):
             el = e.pop("el")
             el = jlabel(spec, el) if et == "ju" else el
             pp.create_valve(net, j, el, et, inner_diameter_mm=e.pop("d_mm", 100.0),
-                            opened=e.pop("opened", True), loss_coefficient=e.pop("zeta", 0.0), index=idx)
+                            opened=e.pop("opened", True), loss_coefficient=e.pop("zeta", 0.3), index=idx)
         elif t == "pump":
             pp.create_pump(net, J("f"), J("to"), std_type=e.pop("std_type", "P1"), in_service=ins,
                            index=idx)
@@ -110,7 +110,7 @@ def build_concrete(spec):
                                    control_active=e.pop("control_active", True), in_service=ins, index=idx)
         elif t == "heat_exchanger":
             pp.create_heat_exchanger(net, J("f"), J("to"), qext_w=e.pop("qext_w", 5000.0),
-                                     inner_diameter_mm=e.pop("d_mm", 100.0), loss_coefficient=e.pop("zeta", 0.0),
+                                     inner_diameter_mm=e.pop("d_mm", 100.0), loss_coefficient=e.pop("zeta", 0.5),
                                      in_service=ins, index=idx)
         elif t == "heat_consumer":
             pp.create_heat_consumer(net, J("f"), J("to"), qext_w=e.pop("qext_w", None),
